@@ -1,7 +1,7 @@
 """C05 — malformed input never escapes the documented error contract."""
 import re
 
-from .. import gen, impl, nmea_cases
+from .. import common, gen, impl, nmea_cases
 
 LIB = {'InvalidNMEAMessageException', 'InvalidNMEAChecksum', 'UnknownMessageException',
        'MissingMultipartMessageException', 'TooManyMessagesException', 'UnknownPartNoException',
@@ -110,6 +110,10 @@ class Prop:
         step = 1 if ctx.tier == 'thorough' else 4
         for frame, sub in ((frame_a, muts[::step]), (frame_b, [x for x in muts if x[0] in ('frag1', 'frag2')][::max(1, step // 2)])):
           clean = [l for l in frame(None) if l is not None]
+          # reassembly slot of every mutated line / of the first fragment of every delivery: computed once
+          mslots = dict(zip([m for _, _, m in sub],
+                            [slot_of(o) for o in common.pmap(impl.step, ['parse ' + impl.hx(m) for _, _, m in sub])]))
+          dslots = {}
           ref = {}
           for fe in ('iter', 'bytestream', 'queue'):
             for tbq in (0, 1):
@@ -127,13 +131,13 @@ class Prop:
                                  {'kind': 'reader-crash', 'exc': o[o.index('CRASH') + 6:], 'frontend': fe})
                         continue
                     # bystanders: every message of the clean frame whose slot the mutated line does not share
-                    po = impl.step('parse ' + impl.hx(m))
-                    ms = slot_of(po)
+                    ms = mslots[m]
                     got = deliveries(o)
                     for d in refd:
-                        first = bytes.fromhex(d[0]).split(b'\n')[0]
-                        if ms is not None and b'\n' in bytes.fromhex(d[0]) and \
-                                slot_of(impl.step('parse ' + first.hex())) == ms:
+                        if d[0] not in dslots:
+                            raw = bytes.fromhex(d[0])
+                            dslots[d[0]] = slot_of(impl.step('parse ' + raw.split(b'\n')[0].hex())) if b'\n' in raw else None
+                        if ms is not None and dslots[d[0]] == ms:
                             continue          # the mutated line occupies the same reassembly slot
                         if d not in got:
                             ctx.fail('a well-formed message was lost or altered by an unrelated malformed line', inp,
